@@ -58,6 +58,12 @@ def main():
     sh(f"rsync -a --exclude .git --exclude _mut /repo/ {scratch}/")
     os.makedirs(f"{scratch}/_mut/x", exist_ok=True)
     shutil.copy(f"{dst}/demo.py", f"{scratch}/_mut/x/demo.py")
+    old = {}
+    if os.path.exists(f"{dst}/meta.json"):
+        try:
+            old = json.load(open(f"{dst}/meta.json"))
+        except Exception:
+            old = {}
     meta = dict(seed=sid, property=prop, at=time.strftime("%Y-%m-%dT%H:%M:%SZ", time.gmtime()), repo_head=sh("git -C /repo log --format=%h -1")[1].strip())
     try:
         rc, out = sh(f"{PY} _mut/x/demo.py", cwd=scratch)
@@ -76,6 +82,11 @@ def main():
             meta["tests_same_as_baseline"] = failed == BASE_FAIL
             m = re.search(r"(\d+) passed", out)
             meta["tests_passed"] = int(m.group(1)) if m else None
+        elif old:
+            for k in ("tests_failed", "tests_same_as_baseline", "tests_passed"):
+                if k in old:
+                    meta[k] = old[k]
+            meta["tests_note"] = "test-suite result carried over from the earlier confirmation run of this seed"
         meta["checks"] = {}
         for c in checks:
             t0 = time.time()
